@@ -104,6 +104,33 @@ def error_arg_templates():
     return T
 
 
+def non_carrier_templates():
+    """a self-call that is the argument of a builtin which is NOT a documented carrier of the tail position
+    (assert, not, display, is_error; to_str of a str is the identity and does forward the tail position): an ordinary call - it consumes depth, and the builtin still does its work on
+    the result (assert turns false into an error, display prints, not negates)"""
+    dec = OP("sub", V("n"), I(1))
+    stop = OP("le", V("n"), I(0))
+    ps1 = [P("n", "int")]
+    T = []
+    T.append(("under_assert_false", [FN("t", ps1, "bool", C("if", [stop, B(False), C("assert", [C("t", [dec])])]))], lambda n: C("t", [I(n)])))
+    T.append(("under_assert_true", [FN("t", ps1, "bool", C("if", [stop, B(True), C("assert", [C("t", [dec])])]))], lambda n: C("t", [I(n)])))
+    T.append(("under_assert_method", [FN("t", ps1, "bool", C("if", [stop, B(False), C("assert", [C("t", [dec])], sty="method")]))], lambda n: C("t", [I(n)])))
+    T.append(("under_assert_and", [FN("t", ps1, "bool", OP("and", OP("gt", V("n"), I(0)), C("assert", [C("t", [dec])])))], lambda n: C("t", [I(n)])))
+    T.append(("under_not", [FN("t", ps1, "bool", C("if", [stop, B(True), C("not", [C("t", [dec])], sty="op")]))], lambda n: C("t", [I(n)])))
+    T.append(("under_display", [FN("t", ps1, "int", C("if", [stop, I(0), C("display", [C("t", [dec])])]))], lambda n: C("t", [I(n)])))
+    T.append(("under_is_error", [FN("t", ps1, "bool", C("if", [stop, B(True), C("is_error", [C("t", [dec])])]))], lambda n: C("t", [I(n)])))
+    return T
+
+
+def non_carrier_programs():
+    progs = []
+    for name, decls, call in non_carrier_templates():
+        for n in (0, 1, 2, 3, 6):
+            for ci, lim in enumerate([{}, {"depth": 4}, {"rec": 0}, {"depth": 3, "rec": 1}]):
+                progs.append(prog("%s.n%d.c%d" % (name, n, ci), decls, call(n), lim, "-"))
+    return progs
+
+
 def error_arg_programs(limits=True):
     progs = []
     for name, decls, call in error_arg_templates():
@@ -132,7 +159,7 @@ def run(chk, tier, seed):
             confs.append({"depth": 4, "rec": max(0, n - 1)})
             for ci, lim in enumerate(confs):
                 progs.append(prog("%s.n%d.c%d" % (name, n, ci), decls, call(n), lim, closed(n)))
-    progs += error_arg_programs()
+    progs += error_arg_programs() + non_carrier_programs()
     cases, r = corecheck.run_core(chk, progs, "c07-small", limits_of=corecheck.xv_limits)
     # design check on the model: with no limits the machine (with trampoline) returns the closed form
     for p in progs:
@@ -184,7 +211,7 @@ def run(chk, tier, seed):
                        "method form, nested), if_error, bool or/and, Optional or, after a local let; and in non-tail "
                        "positions (argument of add on either side, under neg, array item, condition of if, first "
                        "argument of or, inside a lambda, via a local alias, via an inner function, call to another "
-                       "function) x n in {0..12, 10^3, 10^5} x {no limits, depth limits, recursion limits n-1,n,n+1}. "
+                       "function; argument of assert / not / display / is_error) x n in {0..12, 10^3, 10^5} x {no limits, depth limits, recursion limits n-1,n,n+1}. "
                        "non-trivial = distinct (template, n, limits)")
     chk.assumptions += ["for n >= 10^3 the expectation is the closed form, checked by TLC against the trampoline machine for n <= 12"]
 
